@@ -4,10 +4,17 @@ typedef struct TimerEntry { uint64_t id; void *callback; int64_t deadline; struc
 typedef TimerEntry *TimerEntryP;
 typedef struct { TimerEntry *head, *tail; } Bucket;
 typedef struct { Bucket *buckets; size_t currentTick; } WheelLevel;     /* std::vector<Bucket> buckets: storage of _ticksPerWheel buckets */
-typedef struct { int unused; } iora_idmap;                               /* std::unordered_map<TimerId, TimerEntry*> _entryMap: ghost model below */
+/* std::unordered_map<TimerId, TimerEntry*> _entryMap: witness-key map (state tracked for ONE arbitrary ghost id GIDW; another key answers
+ * "absent" or "the other entry" G_other_entry); iterators are element pointers; erase(id) by key is additionally a recording ghost */
+typedef struct { uint64_t first; struct TimerEntry *second; } IdPair; typedef IdPair *IdIt;
+typedef struct { bool present; IdPair w; IdPair scratch; } iora_idmap;
 typedef struct { size_t n; uint64_t gk_id; void *gk_cb; } iora_firelist; /* std::vector<std::pair<TimerId, Callback>>: length + witness element at ghost index GK */
+typedef struct { uint64_t id; void *callback; int64_t deadline; } DrainEntry;             /* local struct of drain() */
+typedef struct { size_t fired; size_t remaining; size_t cancelled; int64_t elapsed; } DrainStats;
+typedef struct { size_t n; DrainEntry last; } iora_drainvec;                              /* std::vector<DrainEntry> entries: count + last element */
+typedef struct { size_t n; } iora_cbvec;                                                  /* std::vector<Callback>: a counter */
 typedef struct { int64_t _tickDuration; size_t _ticksPerWheel; size_t _tickMask; size_t _numWheels; WheelLevel *_wheels;
-                 iora_idmap _entryMap; int64_t _lastAdvanceTime; TimerEntry *_freeListHead; } TimingWheel;
+                 iora_idmap _entryMap; int64_t _lastAdvanceTime; TimerEntry *_freeListHead; bool _accepting; bool _running; int _state; } TimingWheel;
 
 /* ---- ghosts ---- */
 size_t G_pool_locks;                      /* R11: std::lock_guard lock(_poolMutex) */
@@ -19,9 +26,26 @@ uint8_t G_in_map[IORA_NIDS];              /* bounded stand-in: id still in _entr
 size_t G_ticksToProcess;                  /* advance(): value of the local when the catch-up computation is done */
 size_t G_loop_iters, G_iter_budget;       /* SEARCH build: loop-body entries (termination witness) */
 
+uint64_t GIDW; TimerEntry *G_other_entry; size_t G_wheel_locks, G_erases_it;
+static inline IdIt iora_idmap_end(iora_idmap *m) { (void)m; return NULL; }
+static inline IdIt iora_idmap_find(iora_idmap *m, uint64_t k)
+{
+  if (k == GIDW) return m->present ? &m->w : NULL;
+  if (nondet_bool() || G_other_entry == NULL) return NULL;
+  m->scratch.first = k; m->scratch.second = G_other_entry; return &m->scratch;
+}
+static inline void iora_idmap_erase_it(iora_idmap *m, IdIt it)
+{
+  IORA_ASSERT(it != NULL, "unordered_map::erase(it): dereferenceable iterator");
+  G_erases_it++;
+  if (it == &m->w) { IORA_ASSERT(m->present, "erase(it): element is in the map"); m->present = false; }
+}
+/* stop(): the two callees are recording stubs (order of the four steps is the clause) */
+size_t G_seq; size_t G_seq_join, G_seq_clear; _Bool G_accepting_at_join, G_accepting_at_clear; int G_state_at_clear;
 static inline void iora_idmap_erase(iora_idmap *m, uint64_t id)
 {
-  (void)m; G_erases++; G_erased_id = id;
+  if (id == GIDW) m->present = false;
+  G_erases++; G_erased_id = id;
   if (id < IORA_NIDS) G_in_map[id] = 0;
 }
 static inline void iora_firelist_emplace_back(iora_firelist *l, uint64_t id, void *cb)
@@ -51,3 +75,21 @@ static inline void iora_firelist_emplace_back(iora_firelist *l, uint64_t id, voi
 #define IORA_LOOP_TimingWheel_collectFromBucket_1 IORA_LC()
 #define IORA_LOOP_TimingWheel_cascadeDown_1 IORA_LC()
 #define IORA_LOOP_TimingWheel_advanceLocked_1 IORA_LC()
+
+#define iora_stub_stopTickThread(self) do { G_seq++; G_seq_join = G_seq; G_accepting_at_join = (self)->_accepting; (self)->_running = false; } while (0)
+#define iora_stub_clearAllEntries(self) do { G_seq++; G_seq_clear = G_seq; G_accepting_at_clear = (self)->_accepting; G_state_at_clear = (self)->_state; } while (0)
+
+/* clearAllEntries (bounded stand-in): the id map enumerates the harness's entry pool; std::vector<Callback> toDestroy is a counter */
+#define iora_cbvec_DEFAULT ((iora_cbvec){0})
+static inline void iora_cbvec_reserve(iora_cbvec *v, size_t n) { (void)v; (void)n; }
+static inline void iora_cbvec_push_back(iora_cbvec *v, void *cb) { (void)cb; v->n++; }
+size_t G_map_n; TimerEntry *G_map_ents[4]; size_t G_map_clears;
+static inline size_t iora_idmap_size(iora_idmap *m) { (void)m; return G_map_n; }
+static inline size_t iora_idmap_count(iora_idmap *m) { (void)m; return G_map_n; }
+static inline TimerEntry *iora_idmap_nth(iora_idmap *m, size_t k) { (void)m; IORA_ASSERT(k < G_map_n && k < 4, "map iteration in range"); return G_map_ents[k]; }
+static inline void iora_idmap_clear(iora_idmap *m) { m->present = false; G_map_n = 0; G_map_clears++; }
+#define IORA_LOOP_TimingWheel_clearAllEntries_1 IORA_LC()
+#define IORA_LOOP_TimingWheel_clearAllEntries_2 IORA_LC()
+#define IORA_LOOP_TimingWheel_clearAllEntries_3 IORA_LC()
+
+static inline void iora_drainvec_push(iora_drainvec *v, uint64_t id, void *cb, int64_t deadline) { v->n++; v->last.id = id; v->last.callback = cb; v->last.deadline = deadline; }
